@@ -17,13 +17,18 @@
 //!       Reset, Snapshot (clone of instance + registers + reference), Rollback
 //!       (collect_rollback_data(snapshot) then rollback).
 //!   Model "huge": base states = all distinct states up to depth B over a reduced
-//!     alphabet built around `$sp` lowering and snapshots; from EVERY base state one
-//!     allocation that brings hp down to `$sp`+42 (and one down to `$sp` itself), i.e.
-//!     below an earlier stack extent, followed by every sequence of <= T actions from a
-//!     tail alphabet (rollback, growth at the new boundaries, writes/copies across the
-//!     stack/heap seam, reset). States with a 64 MiB buffer are never stored or
-//!     deduplicated, at most HUGE_PAR tails run at once.
-//! Bounds: quick D=4 B=3 T=1; thorough D=5 (larger alphabets) B=4 T=1 and B=2 T=2.
+//!     alphabet built around `$sp` lowering and snapshots (GrowStack{8,100}, SetSp,
+//!     Snapshot, Rollback, Write(ext-8,8), GrowHeap(8), Write(hp,8)); from every base
+//!     state whose `$sp`+42 lies below the stack extent (and from the initial state)
+//!     ONE allocation that brings hp down to `$sp`+42, i.e. below an earlier stack
+//!     extent, and from every base of depth <= 2 one allocation down to `$sp` itself;
+//!     after it every sequence of <= T actions from a tail alphabet (rollback, growth
+//!     at the new boundaries, writes/copies across the stack/heap seam, reset).
+//!     States with a 64 MiB buffer are never stored, merged or snapshotted; HUGE_PAR
+//!     tails run at once; 64 MiB blocks are recycled by a pooling allocator.
+//! Bounds: quick   small D=4, huge B=3 T=1, small D=5 (same alphabet);
+//!         thorough small D=6, huge B=4 T=2 (T=1 for bases of depth 4), small D=5 over
+//!         the wider alphabet (stack {8,100,255,256,257}, heap +4096, two patterns).
 //! Oracle (written from the statement, not from the code): memory is a flat array of
 //!   MEM zero bytes; [a,a+len) is accessible iff a+len <= MEM and (a+len <= extent or
 //!   a >= hp); extent = highest stack growth since reset, cut down to hp when the heap
@@ -57,9 +62,15 @@ use serde::{
     Serialize,
 };
 use std::{
+    alloc::{
+        GlobalAlloc,
+        Layout,
+        System,
+    },
     collections::{
         BTreeMap,
         BTreeSet,
+        HashSet,
     },
     sync::{
         atomic::{
@@ -68,7 +79,6 @@ use std::{
             Ordering,
         },
         Arc,
-        Condvar,
         Mutex,
     },
 };
@@ -78,19 +88,102 @@ use vcore::{
         Model,
     },
     guard,
-    hash64,
     json,
+    run::hash64,
     run_check,
     Ctx,
     Level,
     Value,
 };
 
+// ------------------------------------------------------------------ allocator
+// The huge tails clone 64 MiB buffers thousands of times. With the system allocator
+// every such clone is a fresh mmap (first-touch page faults dominate, seconds per
+// clone on a loaded VM). Blocks of >= 16 MiB are therefore recycled through a small
+// pool; everything else goes straight to the system allocator.
+
+struct PoolAlloc;
+const BIG: usize = 16 << 20;
+const POOL_SLOTS: usize = 28;
+static POOL: Mutex<[(usize, usize, usize); POOL_SLOTS]> = Mutex::new([(0, 0, 0); POOL_SLOTS]);
+
+impl PoolAlloc {
+    fn take(l: Layout) -> Option<*mut u8> {
+        let mut g = POOL.lock().unwrap_or_else(|e| e.into_inner());
+        for slot in g.iter_mut() {
+            if slot.0 != 0 && slot.1 == l.size() && slot.2 == l.align() {
+                let p = slot.0 as *mut u8;
+                *slot = (0, 0, 0);
+                return Some(p)
+            }
+        }
+        None
+    }
+
+    fn put(p: *mut u8, l: Layout) -> bool {
+        let mut g = POOL.lock().unwrap_or_else(|e| e.into_inner());
+        for slot in g.iter_mut() {
+            if slot.0 == 0 {
+                *slot = (p as usize, l.size(), l.align());
+                return true
+            }
+        }
+        false
+    }
+}
+
+unsafe impl GlobalAlloc for PoolAlloc {
+    unsafe fn alloc(&self, l: Layout) -> *mut u8 {
+        if l.size() >= BIG {
+            if let Some(p) = Self::take(l) {
+                return p
+            }
+        }
+        unsafe { System.alloc(l) }
+    }
+
+    unsafe fn dealloc(&self, p: *mut u8, l: Layout) {
+        if l.size() >= BIG && Self::put(p, l) {
+            return
+        }
+        unsafe { System.dealloc(p, l) }
+    }
+
+    unsafe fn alloc_zeroed(&self, l: Layout) -> *mut u8 {
+        if l.size() >= BIG {
+            if let Some(p) = Self::take(l) {
+                unsafe { std::ptr::write_bytes(p, 0, l.size()) };
+                return p
+            }
+        }
+        unsafe { System.alloc_zeroed(l) }
+    }
+
+    unsafe fn realloc(&self, p: *mut u8, l: Layout, new_size: usize) -> *mut u8 {
+        if l.size() >= BIG || new_size >= BIG {
+            unsafe {
+                let nl = Layout::from_size_align_unchecked(new_size, l.align());
+                let np = self.alloc(nl);
+                if !np.is_null() {
+                    std::ptr::copy_nonoverlapping(p, np, l.size().min(new_size));
+                    self.dealloc(p, l);
+                }
+                np
+            }
+        } else {
+            unsafe { System.realloc(p, l, new_size) }
+        }
+    }
+}
+
+#[global_allocator]
+static GLOBAL: PoolAlloc = PoolAlloc;
+
 const MEM: usize = MEM_SIZE;
 const MEMW: u64 = VM_MAX_RAM;
 /// A buffer longer than this makes a state "huge" (never stored / snapshotted).
 const HUGE_LEN: usize = 1 << 22;
-/// Concurrent huge tails (each holds up to 3 x 64 MiB).
+/// Threads running huge tails (each holds up to 4 x 64 MiB).
 const HUGE_PAR: usize = 6;
 
 #[derive(Debug, Clone, Serialize, Deserialize, PartialEq, Eq, Hash)]
@@ -283,7 +376,9 @@ impl St {
 /// The heap pointer held inside the instance is private; its Debug output ends with
 /// it. Used only for the canonical key (hidden state), never for a verdict.
 fn hidden_hp(m: &MemoryInstance) -> u64 {
-    let s = format!("{m:?}");
+    let Ok(s) = guard::catch_any(|| format!("{m:?}")) else {
+        return u64::MAX - 1
+    };
     s.rsplit("hp: ")
         .next()
         .and_then(|t| t.trim_end_matches([' ', '}']).parse::<u64>().ok())
@@ -311,33 +406,18 @@ struct Cfg {
     mc_lens: Vec<u64>,
     /// false: reduced base alphabet of model "huge"
     full: bool,
-    /// tail length after the huge allocation (0 = no tails)
-    tail: usize,
-    /// run tails only from states up to this depth
-    tail_base_depth: usize,
+    /// model "huge": remember every distinct state as a base for the huge tails
+    collect_bases: bool,
 }
+
+type Key = (u64, u64, u64, u64, u64);
 
 struct Mem {
     cfg: Cfg,
-    sem: Sem,
-}
-
-struct Sem(Mutex<usize>, Condvar);
-impl Sem {
-    fn new(n: usize) -> Self {
-        Sem(Mutex::new(n), Condvar::new())
-    }
-    fn acquire(&self) {
-        let mut g = self.0.lock().unwrap();
-        while *g == 0 {
-            g = self.1.wait(g).unwrap();
-        }
-        *g -= 1;
-    }
-    fn release(&self) {
-        *self.0.lock().unwrap() += 1;
-        self.1.notify_one();
-    }
+    bases: Mutex<Vec<(St, Vec<Act>)>>,
+    early_merge: bool,
+    seen: Vec<Mutex<HashSet<Key>>>,
+    merged: AtomicU64,
 }
 
 fn viol(ctx: &Ctx, model: &str, class: &str, path: &[Act], what: String) {
@@ -357,18 +437,22 @@ fn with(path: &[Act], a: &Act) -> Vec<Act> {
 /// First address in `[base, base+sl.len())` where the real bytes differ from the reference.
 fn first_mismatch(sl: &[u8], base: usize, r: &RefMem) -> Option<(usize, u8, u8)> {
     fn nonzero_at(s: &[u8]) -> Option<usize> {
-        let mut off = 0;
-        let mut it = s.chunks_exact(16);
+        let mut it = s.chunks_exact(64);
+        let mut off = 0usize;
         for c in &mut it {
-            if u128::from_ne_bytes(c.try_into().unwrap()) != 0 {
-                return c.iter().position(|b| *b != 0).map(|p| off + p)
+            let mut acc = 0u64;
+            for w in c.chunks_exact(8) {
+                acc |= u64::from_ne_bytes(w.try_into().unwrap());
             }
-            off += 16;
+            if acc != 0 {
+                return c.iter().position(|b| *b != 0).map(|p| off.wrapping_add(p))
+            }
+            off = off.wrapping_add(64);
         }
-        it.remainder().iter().position(|b| *b != 0).map(|p| off + p)
+        it.remainder().iter().position(|b| *b != 0).map(|p| off.wrapping_add(p))
     }
     let mut cur = 0usize; // offset into sl
-    for (&addr, &val) in r.bytes.range(base..base + sl.len()) {
+    for (&addr, &val) in r.bytes.range(base..base.saturating_add(sl.len())) {
         let o = addr - base;
         if let Some(p) = nonzero_at(&sl[cur..o]) {
             return Some((base + cur + p, sl[cur + p], 0))
@@ -461,7 +545,7 @@ fn check_state(s: &St, path: &[Act], model: &str, ctx: &Ctx) -> bool {
     for (a, len) in probes {
         let acc = r.acc(a, len);
         let v = guard::catch_any(|| s.mem.verify(a, len).map(|rg| (rg.start(), rg.end())));
-        let rd = guard::catch_any(|| s.mem.read(a, len).map(|sl| sl.to_vec()));
+        let rd = guard::catch_any(|| s.mem.read(a, len).map(|sl| (sl.len(), if a <= MEMW { first_mismatch(sl, a as usize, r) } else { None })));
         let (v, rd) = match (v, rd) {
             (Ok(v), Ok(rd)) => (v, rd),
             (Err(m), _) | (_, Err(m)) => {
@@ -470,27 +554,24 @@ fn check_state(s: &St, path: &[Act], model: &str, ctx: &Ctx) -> bool {
             }
         };
         if v.is_ok() != rd.is_ok() {
-            viol(ctx, model, "probe:verify-read-disagree", path, format!("verify({a},{len})={v:?} but read={:?}", rd.as_ref().map(|b| b.len())));
+            viol(ctx, model, "probe:verify-read-disagree", path, format!("verify({a},{len})={v:?} but read={:?}", rd.as_ref().map(|b| b.0)));
             return false
         }
         match (acc, v, rd) {
-            (Acc::Yes, Ok((st, en)), Ok(bytes)) => {
-                if st as u64 != a || en as u64 != a + len || bytes.len() as u64 != len {
-                    viol(ctx, model, "probe:range", path, format!("verify({a},{len}) returned {st}..{en}, read {} bytes", bytes.len()));
+            (Acc::Yes, Ok((st, en)), Ok((n, mism))) => {
+                if st as u64 != a || en as u64 != a + len || n as u64 != len {
+                    viol(ctx, model, "probe:range", path, format!("verify({a},{len}) returned {st}..{en}, read {n} bytes"));
                     return false
                 }
-                for (i, b) in bytes.iter().enumerate() {
-                    let exp = r.get(a as usize + i);
-                    if *b != exp {
-                        viol(
-                            ctx,
-                            model,
-                            &format!("content:probe:after-{last}"),
-                            path,
-                            format!("read({a},{len})[{i}] = {b:#04x}, reference {exp:#04x}"),
-                        );
-                        return false
-                    }
+                if let Some((addr, got, exp)) = mism {
+                    viol(
+                        ctx,
+                        model,
+                        &format!("content:probe:after-{last}"),
+                        path,
+                        format!("read({a},{len}): byte at {addr} = {got:#04x}, reference {exp:#04x}"),
+                    );
+                    return false
                 }
                 pc[0] += 1;
             }
@@ -530,8 +611,20 @@ impl Mem {
     fn new(cfg: Cfg) -> Self {
         Mem {
             cfg,
-            sem: Sem::new(HUGE_PAR),
+            bases: Mutex::new(Vec::new()),
+            early_merge: false,
+            seen: (0..64).map(|_| Mutex::new(HashSet::new())).collect(),
+            merged: AtomicU64::new(0),
         }
+    }
+
+    /// For exploration (not replay): merge successors inside `step`.
+    fn exploring(mut self) -> Self {
+        self.early_merge = true;
+        let k = self.key(&self.init());
+        let shard = (k.0 ^ k.1) as usize % self.seen.len();
+        self.seen[shard].lock().unwrap().insert(k);
+        self
     }
 
     /// Apply one action to a copy of `s`, comparing the outcome class with the reference.
@@ -865,14 +958,19 @@ impl Mem {
         Some(n)
     }
 
-    /// Allocations that bring hp below an earlier stack extent (64 MiB heap buffer).
-    fn huge_variants(&self, s: &St) -> Vec<Act> {
+    /// Allocations that need a 64 MiB heap buffer, with the tail length to explore
+    /// after each: (A) down to `$sp`+42 whenever that passes below the current stack
+    /// extent (and once from the initial state), (B) down to `$sp` itself (the refusal
+    /// boundary of grow_heap_by) from bases of depth <= 2.
+    fn huge_plan(&self, s: &St, path: &[Act], tails: &[usize]) -> Vec<(Act, usize)> {
         let mut v = vec![];
         let hp = s.refm.hp as u64;
-        for target in [s.sp + 42, s.sp] {
-            if hp > target {
-                v.push(Act::GrowHeap(hp - target));
-            }
+        let t = tails[path.len().min(tails.len() - 1)];
+        if (s.sp + 42 < s.refm.ext as u64 || path.is_empty()) && hp > s.sp + 42 {
+            v.push((Act::GrowHeap(hp - (s.sp + 42)), t));
+        }
+        if path.len() <= 2 && hp > s.sp {
+            v.push((Act::GrowHeap(hp - s.sp), t.saturating_sub(1)));
         }
         v
     }
@@ -928,10 +1026,9 @@ impl Mem {
         }
     }
 
-    fn run_tail(&self, s: &St, path: &[Act], ctx: &Ctx) {
-        self.sem.acquire();
+    fn run_tail(&self, s: &St, path: &[Act], tails: &[usize], ctx: &Ctx) {
         HUGE_BASES.fetch_add(1, Ordering::Relaxed);
-        for hv in self.huge_variants(s) {
+        for (hv, tail) in self.huge_plan(s, path, tails) {
             if ctx.out_of_time() {
                 break
             }
@@ -942,11 +1039,10 @@ impl Mem {
                 ctx.evals(1);
                 if check_state(&h, &p, self.cfg.name, ctx) {
                     ctx.fp_of(&(2u8, &h.refm, h.sp, h.snap.as_ref().map(|x| x.id)));
-                    self.tail_rec(&h, &p, self.cfg.tail, ctx);
+                    self.tail_rec(&h, &p, tail, ctx);
                 }
             }
         }
-        self.sem.release();
     }
 }
 
@@ -958,7 +1054,7 @@ impl Model for Mem {
     type Action = Act;
     /// (hash of raw buffers incl. stale bytes and hidden hp, hash of the reference,
     ///  $sp, $hp, snapshot id)
-    type Key = (u64, u64, u64, u64, u64);
+    type Key = Key;
 
     fn init(&self) -> St {
         St {
@@ -993,6 +1089,8 @@ impl Model for Mem {
         if !c.full {
             // base alphabet of model "huge"
             v.push(Act::Write { addr: ext.saturating_sub(8), len: 8, pat: 0 });
+            v.push(Act::GrowHeap(8));
+            v.push(Act::Write { addr: hp, len: 8, pat: 0 });
             v.dedup();
             return v
         }
@@ -1035,13 +1133,25 @@ impl Model for Mem {
             }
         }
         // drop duplicates (classes can coincide), keep first occurrence order
-        let mut seen = std::collections::HashSet::new();
+        let mut seen = HashSet::new();
         v.retain(|a| seen.insert(a.clone()));
         v
     }
 
     fn step(&self, s: &St, a: &Act, path: &[Act], ctx: &Ctx) -> Option<St> {
-        self.apply(s, a, path, ctx)
+        let n = self.apply(s, a, path, ctx)?;
+        if self.early_merge {
+            // vcore::bfs materialises every successor of a level before merging; most
+            // transitions here lead to a state already seen (refused operations are
+            // self-loops), so merge at once to keep memory proportional to distinct states.
+            let k = self.key(&n);
+            let shard = (k.0 ^ k.1) as usize % self.seen.len();
+            if !self.seen[shard].lock().unwrap().insert(k) {
+                self.merged.fetch_add(1, Ordering::Relaxed);
+                return None
+            }
+        }
+        Some(n)
     }
 
     fn key(&self, s: &St) -> Self::Key {
@@ -1088,8 +1198,8 @@ impl Model for Mem {
                 }
             }
         }
-        if self.cfg.tail > 0 && path.len() <= self.cfg.tail_base_depth {
-            self.run_tail(s, path, ctx);
+        if self.cfg.collect_bases {
+            self.bases.lock().unwrap().push((s.fork(), path.to_vec()));
         }
     }
 }
@@ -1105,12 +1215,11 @@ fn small_cfg(thorough: bool) -> Cfg {
         pats: if thorough { vec![0, 1] } else { vec![0] },
         mc_lens: vec![0, 1, 8, 9],
         full: true,
-        tail: 0,
-        tail_base_depth: 0,
+        collect_bases: false,
     }
 }
 
-fn huge_cfg(tail: usize, base_depth: usize) -> Cfg {
+fn huge_cfg(collect_bases: bool) -> Cfg {
     Cfg {
         name: "huge",
         stack_sizes: vec![8, 100],
@@ -1119,9 +1228,30 @@ fn huge_cfg(tail: usize, base_depth: usize) -> Cfg {
         pats: vec![],
         mc_lens: vec![],
         full: false,
-        tail,
-        tail_base_depth: base_depth,
+        collect_bases,
     }
+}
+
+fn run_small(ctx: &Ctx, label: &str, cfg: Cfg, depth: usize, max_states: u64) {
+    let small = Mem::new(cfg).exploring();
+    let t0 = ctx.elapsed();
+    let st = bfs::bfs(&small, depth, max_states, ctx);
+    let merged = small.merged.load(Ordering::Relaxed);
+    ctx.add_transitions(merged);
+    ctx.set(
+        label,
+        json!({
+            "wall_s": ctx.elapsed() - t0, "depth": st.completed_depth, "capped": st.capped, "states": st.states, "transitions": st.transitions + merged, "per_depth": st.per_depth,
+            "alphabet": {
+                "GrowStack": small.cfg.stack_sizes, "GrowStack_refused": ["hp+1", "MEM+1"],
+                "SetSp": ["0", "8", "extent"],
+                "GrowHeap": small.cfg.heap_sizes, "GrowHeap_refused": ["hp-sp+1", "hp+1"],
+                "Write": {"addr": ["0", "ext-len", "ext-len+1", "hp-1", "hp", "MEM-len", "MEM-len+1"], "len": small.cfg.write_lens, "patterns": small.cfg.pats},
+                "Memcopy": {"dst,src": ["0", "8", "ext-len", "hp-1", "hp", "hp+8"], "len": small.cfg.mc_lens},
+                "other": ["Reset", "Snapshot", "Rollback"]
+            }
+        }),
+    );
 }
 
 fn explore(ctx: &Ctx) {
@@ -1145,47 +1275,48 @@ fn explore(ctx: &Ctx) {
     );
     let thorough = ctx.thorough();
 
-    // ---- model "small"
-    let small = Mem::new(small_cfg(thorough));
-    let depth = ctx.pick(4usize, 5usize);
-    let st = bfs::bfs(&small, depth, ctx.pick(3_000_000, 40_000_000), ctx);
-    ctx.set(
-        "small",
-        json!({
-            "depth": st.completed_depth, "capped": st.capped, "states": st.states, "transitions": st.transitions, "per_depth": st.per_depth,
-            "alphabet": {
-                "GrowStack": small.cfg.stack_sizes, "GrowStack_refused": ["hp+1", "MEM+1"],
-                "SetSp": ["0", "8", "extent"],
-                "GrowHeap": small.cfg.heap_sizes, "GrowHeap_refused": ["hp-sp+1", "hp+1"],
-                "Write": {"addr": ["0", "ext-len", "ext-len+1", "hp-1", "hp", "MEM-len", "MEM-len+1"], "len": small.cfg.write_lens, "patterns": small.cfg.pats},
-                "Memcopy": {"dst,src": ["0", "8", "ext-len", "hp-1", "hp", "hp+8"], "len": small.cfg.mc_lens},
-                "other": ["Reset", "Snapshot", "Rollback"]
-            }
-        }),
-    );
+    // ---- model "small", first pass (cheap, always completes)
+    run_small(ctx, "small", small_cfg(false), ctx.pick(4, 6), 3_000_000);
 
-    // ---- model "huge"
-    let plans: Vec<(usize, usize)> = if thorough { vec![(4, 1), (2, 2)] } else { vec![(3, 1)] };
-    let mut hs = vec![];
-    for (base_depth, tail) in plans {
-        let before = (HUGE_BASES.load(Ordering::Relaxed), HUGE_STATES.load(Ordering::Relaxed));
-        let huge = Mem::new(huge_cfg(tail, base_depth));
-        let sh = bfs::bfs(&huge, base_depth, 1_000_000, ctx);
+    // ---- model "huge": collect base states, then run the 64 MiB tails from each,
+    // shallowest bases first, on a small thread pool (bounded resident memory)
+    let (base_depth, tails): (usize, Vec<usize>) = ctx.pick((3, vec![1, 1, 1, 1]), (4, vec![2, 2, 2, 2, 1]));
+    let huge = Mem::new(huge_cfg(true)).exploring();
+    let t0 = ctx.elapsed();
+    let sh = bfs::bfs(&huge, base_depth, 1_000_000, ctx);
+    let mut bases = std::mem::take(&mut *huge.bases.lock().unwrap());
+    bases.sort_by_cached_key(|(_, p)| (p.len(), format!("{p:?}")));
+    let pool = rayon::ThreadPoolBuilder::new().num_threads(HUGE_PAR).build().expect("thread pool");
+    let mut tails_done = vec![0u64; base_depth + 1];
+    for d in 0..=base_depth {
+        let level: Vec<&(St, Vec<Act>)> = bases.iter().filter(|(_, p)| p.len() == d).collect();
         if ctx.out_of_time() {
-            ctx.cap(format!("huge tails (base depth {base_depth}, tail {tail}) cut short by the time budget"));
+            ctx.cap(format!("huge tails stopped before base depth {d} by the time budget"));
+            break
         }
-        hs.push(json!({
-            "base_depth": sh.completed_depth, "base_states": sh.states, "base_per_depth": sh.per_depth, "tail_len": tail,
-            "bases_with_tail": HUGE_BASES.load(Ordering::Relaxed) - before.0,
-            "huge_states_checked": HUGE_STATES.load(Ordering::Relaxed) - before.1,
-        }));
+        pool.install(|| {
+            use rayon::prelude::*;
+            level.par_iter().for_each(|(s, p)| huge.run_tail(s, p, &tails, ctx));
+        });
+        if ctx.out_of_time() {
+            ctx.cap(format!("huge tails of base depth {d} cut short by the time budget"));
+            break
+        }
+        tails_done[d] = level.len() as u64;
     }
+    let hs = json!({
+        "wall_s": ctx.elapsed() - t0, "base_depth": sh.completed_depth, "base_states": sh.states, "base_per_depth": sh.per_depth,
+        "tail_len_by_base_depth": tails, "bases_completed_per_depth": tails_done,
+        "bases_visited": HUGE_BASES.load(Ordering::Relaxed),
+        "huge_states_checked": HUGE_STATES.load(Ordering::Relaxed),
+    });
     ctx.set(
         "huge",
         json!({
-            "plans": hs,
-            "base_alphabet": {"GrowStack": [8, 100], "SetSp": ["0", "8", "extent"], "Write": ["(ext-8, 8)"], "other": ["Snapshot", "Rollback"]},
-            "huge_actions": ["GrowHeap(hp-($sp+42))", "GrowHeap(hp-$sp)"],
+            "run": hs,
+            "base_alphabet": {"GrowStack": [8, 100], "SetSp": ["0", "8", "extent"], "Write": ["(ext-8, 8)", "(hp, 8)"], "GrowHeap": [8], "other": ["Snapshot", "Rollback"]},
+            "huge_actions": ["A: GrowHeap(hp-($sp+42)) from every base with $sp+42 < extent, and from the initial state",
+                "B: GrowHeap(hp-$sp) from every base of depth <= 2, tail one shorter"],
             "tail_alphabet": ["Rollback", "GrowStack(hp)", "GrowStack(hp+1)", "GrowHeap(1)", "GrowHeap(8)", "GrowHeap(hp-sp+1)",
                 "Write(ext-8,8)", "Write(ext-7,8)", "Write(hp-1,8)", "Write(hp,8)", "Write(MEM-8,8)",
                 "Memcopy(hp<-0,8)", "Memcopy(0<-hp,8)", "Memcopy(hp<-hp+7,8)", "Memcopy(hp-1<-MEM-8,8)", "SetSp(0)", "Reset"],
@@ -1193,6 +1324,9 @@ fn explore(ctx: &Ctx) {
             "max_concurrent_tails": HUGE_PAR,
         }),
     );
+
+    // ---- model "small", deeper / wider pass with whatever budget is left
+    run_small(ctx, "small_deep", small_cfg(thorough), 5, 6_000_000);
 
     // ---- outcome histogram
     for k in 0..8 {
@@ -1212,12 +1346,11 @@ fn replay(case: &Value, ctx: &Ctx) {
     let acts: Vec<Act> = serde_json::from_value(case["actions"].clone()).expect("actions");
     // same step function and state oracle; tails are not re-enumerated (the recorded
     // action list already contains the huge allocation and its tail)
-    let mut cfg = match case["model"].as_str() {
+    let cfg = match case["model"].as_str() {
         Some("small") => small_cfg(ctx.thorough()),
-        Some("huge") => huge_cfg(0, 0),
+        Some("huge") => huge_cfg(false),
         other => panic!("unknown model {other:?}"),
     };
-    cfg.tail = 0;
     bfs::replay_path(&Mem::new(cfg), &acts, ctx);
 }
 
